@@ -58,6 +58,7 @@ class HintOcc:
         self.pc, self.visit, self.idx, self.name = pc, visit, idx, name
         self.outs = outs  # list of (cellref dict or ('abs', seg, off), value)
         self.ins = None
+        self.loose = False
 
     def __repr__(self):
         return f"Hint({self.name}@{self.pc}#{self.visit}.{self.idx} -> {[v for _, v in self.outs]})"
